@@ -209,3 +209,9 @@ def check(cx):
         cx.bad(r6, "caller:" + c, p.fn(c).where(),
                "pages of a dropped tree are freed inside the transaction (%s): after ROLLBACK the table is "
                "unreadable and the next allocation reuses its pages (D17)" % " -> ".join(path[-4:]))
+
+    # ---- C03.7 (construct shared with C04.2) ---------------------------------------------------------------------
+    from . import c04
+    cx.include(c04, {"C04.2"}, "C03.7", "shared with C04.2: rolled-back work is hidden only by the snapshot-aware decoders; any read "
+               "that decides on the existence of a row or catalog entry through a snapshot-unaware decoder sees rolled-back "
+               "inserts, creates and deletes", floor=9)
